@@ -2,6 +2,8 @@ package ka
 
 import (
 	"fmt"
+	"os"
+	"path/filepath"
 	"sort"
 	"strings"
 	"sync"
@@ -383,6 +385,100 @@ func RunC11(run *vk.Run) {
 			}
 			run.Case(fmt.Sprintf("bootstrap-fault:%v:%d:%s", j.combo, j.k, j.name), true)
 		})
+	}
+	// a storage whose writers take part of what they are given and say so only in the byte count: a first
+	// bootstrap, and a rotation after a normal history, either fail or store whole objects; every prefix
+	// of what was committed is consistent
+	for _, phase := range []string{"bootstrap", "rotate"} {
+		for _, per := range []int{1024, 100} {
+			a, err := NewAuthority(Combo{"memkm", "gcsca"})
+			if err != nil {
+				run.Infra(err)
+				return
+			}
+			var writes []Write
+			cmd := func(short bool, args ...string) error {
+				t := &Tap{}
+				a.Storage.mu.Lock()
+				if short {
+					a.Storage.ShortWrites = per
+				} else {
+					a.Storage.ShortWrites = 0
+				}
+				a.Storage.mu.Unlock()
+				err := a.Exec(t, args...)
+				writes = append(writes, t.Writes...)
+				return err
+			}
+			var ferr error
+			if phase == "bootstrap" {
+				ferr = cmd(true, "bootstrap", "--timestamp", ts(T0))
+			} else {
+				if err := cmd(false, "bootstrap", "--timestamp", ts(T0)); err != nil {
+					run.Infra(err)
+					return
+				}
+				ferr = cmd(true, "rotate", "--timestamp", ts(Tn(1)))
+			}
+			objs := map[string][]byte{}
+			for k, w := range writes {
+				objs[bucket+"/"+w.Object] = w.Data
+				if err := StoreConsistent(objs, Tn(1)); err != nil {
+					run.Violation("prefix-inconsistent:short-writes:"+classOf(w.Object), fmt.Sprintf("storage writers that take at most %d bytes per call and report the short count: after the first %d committed object writes (last: %s) of a %s (result: %v) the store is inconsistent: %v", per, k+1, w.Object, phase, ferr, err), nil)
+					break
+				}
+			}
+			run.Case(fmt.Sprintf("short-writes:%s:%d", phase, per), true)
+			a.Close()
+		}
+	}
+	// the object-store authority on real files (storage/local) with object names the file system cannot answer for: a
+	// certificate directory whose name is taken by a regular file, a common name longer than a file name may
+	// be; with and without --keep_going the store on disk stays consistent (every listed key resolves to a
+	// stored certificate)
+	for _, blocker := range []string{"notdir", "plain"} {
+		for _, kg := range []bool{false, true} {
+			a, err := NewAuthority(Combo{"localkm", "gcsdisk"})
+			if err != nil {
+				run.Infra(err)
+				return
+			}
+			if err := a.Exec(&Tap{}, "bootstrap", "--timestamp", ts(T0)); err != nil {
+				run.Infra(fmt.Errorf("bootstrap: %v", err))
+				a.Close()
+				return
+			}
+			layoutCerts := certDir
+			if blocker == "notdir" {
+				// the rotation is told a certificate directory whose first component is a regular file
+				os.WriteFile(filepath.Join(a.Dir, "bucketroot", bucket, "occupied"), []byte("a file, not a directory"), 0o644)
+				a.CertDirFlag = "occupied/certs"
+				layoutCerts = "occupied/certs"
+			}
+			args := []string{"rotate", "--timestamp", ts(Tn(1))}
+			if kg {
+				args = append(args, "--keep_going")
+			}
+			xerr := a.Exec(&Tap{}, args...)
+			objs := map[string][]byte{}
+			rootDir := filepath.Join(a.Dir, "bucketroot")
+			filepath.Walk(rootDir, func(p string, info os.FileInfo, err error) error {
+				if err == nil && !info.IsDir() {
+					b, _ := os.ReadFile(p)
+					rel, _ := filepath.Rel(rootDir, p)
+					objs[filepath.ToSlash(rel)] = b
+				}
+				return nil
+			})
+			run.Case(fmt.Sprintf("disk-names:%s:%v", blocker, kg), true)
+			if err := StoreConsistentLayout(objs, Tn(1), rootPath, layoutCerts); err != nil {
+				// the entries of the bootstrap keep their objects under the first layout
+				if err2 := StoreConsistentLayout(objs, Tn(1), rootPath, certDir); err2 != nil || blocker == "notdir" {
+					run.Violation("store-inconsistent:disk-names", fmt.Sprintf("on-disk authority, rotation with a certificate directory %q (%s; --keep_going %v; result: %v): the store on disk is inconsistent afterwards: %v", a.certDirFlag(), blocker, kg, xerr, err), nil)
+				}
+			}
+			a.Close()
+		}
 	}
 	// a long history: the manifest grows by one entry per rotation; after every command the live
 	// store must still load through a fresh authority instance
